@@ -146,11 +146,13 @@ def written(text, wkw, rkw):
     return buf.getvalue()
 
 
-def oracle(text, c1, c2, rkw):
+def oracle(text, c1, c2, rkw, rkw2=None):
     """-> (violation text | None, "ok" | "not accepted ...").  Every pair whose input is readable and writable with at least one of
-    the two configurations is judged: both outputs must be readable, of the same shape, and of equal content."""
+    the two configurations is judged: both outputs must be readable, of the same shape, and of equal content.  rkw: options of the
+    read that builds the object; rkw2 (default rkw): options of the two re-reads."""
     import lasio
     import numpy as np
+    rkw2 = rkw if rkw2 is None else rkw2
     tag = (NONBLANK_TAG + " ") if has_nonblank(c1, c2) else ""
     try:
         lasio.read(text, **rkw)
@@ -173,7 +175,7 @@ def oracle(text, c1, c2, rkw):
     outs, shapes, rerr = [], [], []
     for t in texts:
         try:
-            las = lasio.read(t, **rkw)
+            las = lasio.read(t, **rkw2)
             outs.append(rm.show_las(las))
             shapes.append([tuple(np.shape(c.data)) for c in las.curves])
             rerr.append(None)
@@ -277,25 +279,29 @@ def run(ctx):
     per = 5 if ctx.thorough else 1
     cases, meta, kinds = [], [], set()
     hist = {"version_differs": 0, "wrap_differs": 0, "not_accepted": 0, "preserve": 0, "format_strings_differ": 0, "column_fmt": 0,
-            "nonblank_spacer": 0, "wide": 0, "wide_12_vs_20_nowrap": 0, "overflow": 0, "pairs": 0}
+            "nonblank_spacer": 0, "reread_options_differ": 0, "wide": 0, "wide_12_vs_20_nowrap": 0, "overflow": 0, "pairs": 0}
     not_accepted = []
     for name, text in bases:
         for _ in range(per):
             rkw = {"mnemonic_case": rng.choice(["upper", "upper", "preserve", "lower"])}
             c1, c2 = configs(rng, text, rkw, kind_of(name))
-            bad, st = oracle(text, c1, c2, rkw)
+            # the re-reads may use other options than the read that built the object (first read preserve, re-read upper, ...)
+            rkw2 = {"mnemonic_case": rng.choice(["upper", "preserve", "lower"])} if rng.random() < 0.25 else rkw
+            bad, st = oracle(text, c1, c2, rkw, rkw2)
             if st != "ok":
                 hist["not_accepted"] += 1
                 not_accepted.append("%s: %s" % (name, st))
                 continue
             hist["pairs"] += 1
+            hist["reread_options_differ"] += rkw2 != rkw
             if bad:
-                res.oracle_violations.append({"payload": {"text": text, "c1": c1, "c2": c2, "rkw": rkw}, "what": "%s: %s" % (name, bad)})
+                res.oracle_violations.append({"payload": {"text": text, "c1": c1, "c2": c2, "rkw": rkw, "rkw2": rkw2},
+                                              "what": "%s: %s" % (name, bad)})
             nonblank = has_nonblank(c1, c2)
             for cfg in (c1, c2):
                 if not is_blank_spacer(cfg["spacer"]):
                     continue              # outside the writer model (ASSUMPTIONS): implementation-side oracle only
-                ops = [("R", rkw), ("W", cfg), ("R", rkw)]
+                ops = [("R", rkw), ("W", cfg), ("R", rkw2)]
                 c, r = wm.coq_case(text, ops)
                 cases.append(c)
                 meta.append((name, text, ops))
@@ -346,7 +352,7 @@ def fix_cfg(c):
 
 
 def replay(payload):
-    bad, st = oracle(payload["text"], fix_cfg(payload["c1"]), fix_cfg(payload["c2"]), payload["rkw"])
+    bad, st = oracle(payload["text"], fix_cfg(payload["c1"]), fix_cfg(payload["c2"]), payload["rkw"], payload.get("rkw2"))
     return bad is not None, bad or "ok"
 
 
@@ -357,14 +363,14 @@ def finding_of(payload):
         c1, c2 = fix_cfg(payload["c1"]), fix_cfg(payload["c2"])
         if not has_nonblank(c1, c2):
             return None
-        bad, st = oracle(payload["text"], c1, c2, payload["rkw"])
+        bad, st = oracle(payload["text"], c1, c2, payload["rkw"], payload.get("rkw2"))
         if st != "ok" or not bad or not bad.startswith(NONBLANK_TAG):
             return None
         d1, d2 = dict(c1), dict(c2)
         for d in (d1, d2):
             if not is_blank_spacer(d.get("spacer", " ")):
                 d["spacer"] = " "
-        bad2, st2 = oracle(payload["text"], d1, d2, payload["rkw"])
+        bad2, st2 = oracle(payload["text"], d1, d2, payload["rkw"], payload.get("rkw2"))
         if st2 == "ok" and bad2 is None:
             return "nonblank-spacer"
     except Exception:
@@ -380,6 +386,7 @@ def search(ctx, res):
         for name, text in bases:
             rkw = {"mnemonic_case": rng.choice(["upper", "preserve", "lower"])}
             c1, c2 = configs(rng, text, rkw, kind_of(name))
-            bad, st = oracle(text, c1, c2, rkw)
+            rkw2 = {"mnemonic_case": rng.choice(["upper", "preserve", "lower"])} if rng.random() < 0.25 else rkw
+            bad, st = oracle(text, c1, c2, rkw, rkw2)
             if st == "ok" and bad:
-                yield {"payload": {"text": text, "c1": c1, "c2": c2, "rkw": rkw}, "what": "%s: %s" % (name, bad)}
+                yield {"payload": {"text": text, "c1": c1, "c2": c2, "rkw": rkw, "rkw2": rkw2}, "what": "%s: %s" % (name, bad)}
